@@ -160,6 +160,7 @@ fam('c08_provided', 'g_alg', [(2, 2, k) for k in _light] + [(1, 1, k) for k in _
     unwind=lambda c: max(c[0], c[1]) + 2)
 fam('c08_sub', 'g_alg', Q8[:6], D8)
 fam('c08_difference_ref', 'g_alg', [(1, 1), (2, 2), (3, 2), (2, 3)], [(3, 3), (4, 2)], unwind=lambda c: 9)
+fam('c08_difference_ref_slices', 'g_alg', [(1, 1), (2, 1), (2, 2)], [(3, 2), (2, 3)], unwind=lambda c: 6)
 fam('c14_map c14_set', 'g_alg', Q8 + [(2, 3)], [(4, 4), (4, 1), (1, 4), (5, 5)])
 fam('c14_partial', 'g_alg', [1, 2, 3], [4])
 
@@ -167,7 +168,7 @@ C03F = 'c03_insert c03_insert_kv c03_or_insert c03_or_insert_with c03_or_insert_
 fam(C03F, 'g_full', [0, 1, 2, 3], [4, 5], profiles=('rel', 'dbg'))
 fam('c03_replace_full', 'g_full', [1, 2, 3], [4, 5], profiles=('rel', 'dbg'))
 # second parameter = element shape: 0 (u8,()) zero-sized value, 1 (u8,[u64;3]) large value, 2 ((),u8) zero-sized key
-fam('c03_shapes', 'g_full', [(n, 0) for n in (0, 1, 2, 3)] + [(n, 1) for n in (0, 1, 2, 3)] + [(0, 2), (1, 2), (2, 2)], [(4, 0), (5, 0), (4, 1), (5, 1)], profiles=('rel', 'dbg'), unwind=lambda c: c[0] + 3)
+fam('c03_shapes', 'g_full', [(n, 0) for n in (0, 1, 2, 3)] + [(n, 1) for n in (0, 1, 2, 3)] + [(0, 2), (1, 2), (2, 2)] + [(n, 3) for n in (0, 1, 2, 3)], [(4, 0), (5, 0), (4, 1), (5, 1)], profiles=('rel', 'dbg'), unwind=lambda c: c[0] + 3)
 
 C04F1 = 'c04_clone c04_clear c04_retain c04_insert c04_remove c04_set_ops c04_drops c04_set_drops'
 fam('c04_insert c04_remove c04_set_ops', 'g_panic', [0, 1, 2, 3], [4, 5], dprofiles=('rel', 'dbg'))
@@ -188,7 +189,9 @@ fam('c05_panics', 'g_panic', [0, 1, 2, 3], [4, 5], profiles=('rel', 'dbg'))
 fam('c11_or', 'g_entry', [1, 2, 3], [4, 5], dprofiles=('rel', 'dbg'))
 fam('c11_variants c11_key_and_modify', 'g_entry', [0, 1, 2, 3], [4, 5], dprofiles=('rel', 'dbg'))
 
-fam('c13_disjoint', 'g_misc', [(0, 0), (2, 0), (0, 2), (1, 1), (2, 1), (1, 2), (2, 2), (3, 2), (2, 3), (3, 3)], [(4, 3), (3, 4), (4, 4), (5, 2)], profiles=('rel', 'dbg'))
+# (2, 9), (2, 17): request arrays longer than 8 / 16 keys (a u8 / u16 bit set indexed by request position); J <= 20 keeps libcore's sort on its
+# insertion-sort path (above that the quicksort recursion does not finish in the symbolic execution)
+fam('c13_disjoint', 'g_misc', [(0, 0), (2, 0), (0, 2), (1, 1), (2, 1), (1, 2), (2, 2), (3, 2), (2, 3), (3, 3)], [(4, 3), (3, 4), (4, 4), (5, 2), (2, 9), (2, 17)], profiles=('rel', 'dbg'))
 fam('c13_disjoint_tok', 'g_misc', [1, 2, 3], [4, 5])
 fam('c15_clone c15_set_clone', 'g_misc', [0, 1, 2, 3], [4, 5], dprofiles=('rel', 'dbg'))
 fam('c15_zst', 'g_misc', [1, 2, 3], [])   # zero-sized, never-equal keys
@@ -202,7 +205,7 @@ fam('c15_clone_from', 'g_misc', [1, 2, 3], [4])
 fam('c06_big', 'g_misc', [3], [], unwind=lambda c: 6, no_dbg=True)
 fam('c16_from_iter', 'g_misc', [(0, 1), (1, 2), (2, 3), (3, 4), (2, 4)], [(3, 5), (4, 5)], profiles=('rel', 'dbg'))
 fam('c16_set_from', 'g_misc', [(1, 2), (2, 3), (3, 4)], [(4, 5)])
-fam('c18_insert_unchecked', 'g_misc', [1, 2, 3], [4, 5], profiles=('rel', 'dbg'))
+fam('c18_insert_unchecked', 'g_misc', [1, 2, 3, 4], [5], profiles=('rel', 'dbg'))
 fam('c18_disjoint_unchecked', 'g_misc', [(2, 0), (1, 1), (2, 2), (3, 2), (2, 3), (3, 3)], [(4, 3), (3, 4), (4, 4)], profiles=('rel', 'dbg'))
 
 fam('c17_insert', 'g_liar', [0, 1, 2, 3], [4], profiles=('rel', 'dbg'))
@@ -217,10 +220,13 @@ fam('c17_set', 'g_liar', [(1, 1), (2, 1), (1, 2)], [(2, 2), (3, 2)])   # (2,2): 
 fam('c06_refs c06_refs_set', 'g_map', [1, 2, 3], [4])
 fam('c01u_ops', 'g_map', [4, 6, 8], [10, 12])
 fam('c07u_ops', 'g_set', [4, 6, 8], [10, 12])
+fam('c01w_ops', 'g_map', [(18, 17), (18, 16)], [(34, 33), (34, 32), (66, 66), (72, 65), (72, 64)], unwind=lambda c: c[0] + 2)
+fam('c07w_ops', 'g_set', [(18, 17), (18, 16)], [(34, 33), (34, 32), (66, 66), (72, 65), (72, 64)], unwind=lambda c: c[0] + 2)
 fam('c01_hist', 'g_map', [(2, 2)], [(2, 3), (3, 3), (3, 4)], unwind=lambda c: c[0] + 2)
 
 # second/third parameter W selects the rendering ({} / {:?} / {:#?}) or the iterator kind: one per obligation
 fam('c19_nested', 'g_fmt', [(1, 1), (1, 2)], [(2, 1), (2, 2)], lto=True, unwind=lambda c: 8)   # N=2: 4-5 min each
+fam('c19_long', 'g_fmt', [(1, w) for w in range(5)], [(2, w) for w in range(5)], lto=True, unwind=lambda c: 8)
 fam('c06_fmt_specs', 'g_fmt', [(1, w) for w in range(5)], [(2, w) for w in range(5)], lto=True, unwind=lambda c: 8)
 fam('c19_map c19_set', 'g_fmt', [(n, w) for n in (0, 1, 2) for w in (0, 1, 2)] + [(1, 3), (2, 3)], [(3, w) for w in (0, 1, 2, 3)], lto=True, unwind=lambda c: 8)   # w: 0 {} 1 {:?} 2 {:#?} 3 {:#}
 fam('c19_map_iters', 'g_fmt', [(1, w) for w in range(9)] + [(2, 5)], [(n, w) for n in (2, 3) for w in range(9) if (n, w) != (2, 5)], lto=True, unwind=lambda c: 8)
@@ -235,11 +241,12 @@ fam('c20_bincode_map c20_bincode_set', 'g_serde', [(0, 0), (1, 1), (2, 2), (3, 3
 # --------------------------------------------------------------------------------------- properties
 PROPS = {
     'C20': dict(fams='c20_bincode_map c20_bincode_set c20_value_de c20_tokens'),
-    'C19': dict(fams='c19_map c19_set c19_nested c19_map_iters c19_set_iters c19_zst'),
+    'C19': dict(fams='c19_map c19_set c19_nested c19_map_iters c19_set_iters c19_zst c19_long'),
     'C02': dict(fams='c01_insert c01_insert_kv c01_checked_insert c01_lookup c01_remove c01_remove_entry c01_retain c01_clear c01_drain_all '
                      'c10_into_iter c10_into_keys c10_into_values c10_set_into_iter c10_drain c10_set_drain c10_provided c10_set_provided c10_drain_methods c10_set_drain_methods '
                      'c07_insert c07_replace c07_remove c07_take c07_retain c07_clear c07_drain c07_extend c11_or c11_variants c11_key_and_modify c16_from_iter c15_clone c15_set_clone c15_clone_from '
-                     'c03_insert c03_insert_kv c03_or_insert c03_vacant_insert c03_set_insert c03_checked_full c03_from_iter c03_set_extend'),   # rejected arguments destroyed exactly once
+                     'c03_insert c03_insert_kv c03_or_insert c03_vacant_insert c03_set_insert c03_checked_full c03_from_iter c03_set_extend '
+                     'c04_internal c04_set_internal'),   # rejected arguments destroyed exactly once
     'C12': dict(fams='c01_insert c01_insert_kv c01_checked_insert c01_lookup c01_remove_entry c03_replace_full c07_insert c07_replace c07_lookup c07_take '
                      'c09_iter c09_set_iter c10_into_iter c10_set_into_iter c11_or c11_variants c11_key_and_modify c16_from_iter c16_from_array'),
     'C06': dict(fams='c06_big c06_refs c06_refs_set c01_insert c01_lookup c01_remove c01_retain c01_clear c01_drain_all c09_iter c09_iter_mut c10_into_iter c10_drain '
@@ -250,22 +257,22 @@ PROPS = {
     'C13': dict(fams='c13_disjoint c13_disjoint_tok'),
     'C15': dict(fams='c15_clone c15_set_clone c15_clone_nodrop c15_clone_from c15_zst c01_zst c07_zst'),
     'C16': dict(fams='c16_from_iter c16_from_array c16_set_from c16_set_from_array c07_extend c07_extend_ref'),
-    'C18': dict(fams='c18_insert_unchecked c18_disjoint_unchecked c04_insert'),
+    'C18': dict(fams='c18_insert_unchecked c18_disjoint_unchecked c04_insert c01w_ops'),
     'C11': dict(fams='c11_or c11_variants c11_key_and_modify '
                      'c03_or_insert c03_or_insert_with c03_or_insert_with_key c03_vacant_insert c03_or_default'),   # full map: entry insertion must panic exactly like insert
     'C04': dict(fams=C04F1 + ' c04_clone_from c04_lookup c04_entry c04_disjoint c04_internal c04_set_internal c04_from_array c04_from_iter c04_set_extend c04_set_algebra'),
     'C05': dict(fams='c05_panics c01_insert c01_insert_kv c01_checked_insert c01_remove c01_remove_entry c01_retain c01_clear c01_drain_all c01_lookup c01_index '
                      'c07_insert c07_replace c07_remove c07_take c07_retain c10_drain '
                      'c03_insert c03_insert_kv c03_or_insert c03_or_insert_with c03_or_insert_with_key c03_vacant_insert c03_or_default c03_set_insert c03_from_iter c03_set_extend '
-                     'c18_insert_unchecked c11_or c11_variants c15_clone c16_from_iter c01_hist c01_zst c07_zst'),   # every state-changing path ends in well_formed()/observe()
+                     'c18_insert_unchecked c11_or c11_variants c15_clone c16_from_iter c16_from_array c16_set_from_array c16_set_from c01_hist c01_zst c07_zst'),   # every state-changing path ends in well_formed()/observe()
     'C03': dict(fams=C03F + ' c03_replace_full c03_shapes'),
-    'C08': dict(fams='c08_union c08_intersection c08_difference c08_symdiff c08_union_fold c08_intersection_fold c08_difference_fold c08_symdiff_fold c08_provided c08_sub c08_difference_ref c08_predicates'),
+    'C08': dict(fams='c08_union c08_intersection c08_difference c08_symdiff c08_union_fold c08_intersection_fold c08_difference_fold c08_symdiff_fold c08_provided c08_sub c08_difference_ref c08_difference_ref_slices c08_predicates'),
     'C14': dict(fams='c14_map c14_set c14_partial'),
-    'C07': dict(fams='c07_zst c07u_ops c07_insert c07_replace c07_lookup c07_remove c07_take c07_retain c07_clear c07_drain c07_extend c07_extend_ref'),
+    'C07': dict(fams='c07_zst c07u_ops c07w_ops c07_insert c07_replace c07_lookup c07_remove c07_take c07_retain c07_clear c07_drain c07_extend c07_extend_ref'),
     'C09': dict(fams='c09_iter c09_keys c09_values c09_iter_mut c09_values_mut c09_set_iter c09_defaults c09_provided c09_set_provided c09_zst'),
     'C10': dict(fams='c10_into_iter c10_into_keys c10_into_values c10_set_into_iter c10_drain c10_set_drain c10_provided c10_set_provided c10_drain_methods c10_set_drain_methods '
                      'c10_zst c04_internal c04_set_internal'),   # "each once" also when the closure driving for_each/fold panics
-    'C01': dict(fams='c01_insert c01_insert_kv c01_checked_insert c01_lookup c01_index c01_remove c01_remove_entry c01_retain c01_clear c01_drain_all c10_drain c01_hist c01u_ops c01_zst '
+    'C01': dict(fams='c01_insert c01_insert_kv c01_checked_insert c01_lookup c01_index c01_remove c01_remove_entry c01_retain c01_clear c01_drain_all c10_drain c01_hist c01u_ops c01w_ops c01_zst '
                      'c03_insert c03_insert_kv c03_checked_full c03_replace_full'),   # a rejected insertion leaves exactly the previous associations
 }
 
@@ -318,5 +325,5 @@ TIERS = {
     'thorough': dict(timeout=1200, mem_gb=12, max_unwind=30),
 }
 # the formatting harnesses compare 40-byte buffers
-PROP_CAPS = {'C19': dict(max_unwind=44, timeout=600), 'C06': dict(max_unwind=44, timeout=600)}
+PROP_CAPS = {'C19': dict(max_unwind=164, timeout=600), 'C06': dict(max_unwind=44, timeout=600)}   # c19_long compares 160-byte buffers
 NA = {}
